@@ -355,6 +355,33 @@ func init() {
 	for _, n := range []string{"Read", "Write", "LocalAddr", "RemoteAddr", "SetDeadline", "SetReadDeadline", "SetWriteDeadline"} {
 		models["(*crypto/tls.Conn)."+n] = tlsForward(n)
 	}
+	// ConnectionState: what was negotiated is the peer's business — an arbitrary
+	// state within the documented contract: TLS 1.3 with its first cipher suite
+	// (not varied), resumed or not, and a peer certificate list that is EMPTY or
+	// has one entry (a client need not present one unless the server requires it)
+	models["(*crypto/tls.Conn).ConnectionState"] = func(e *Exec, c *frame, fn *ssa.Function, a []Value) Value {
+		t := e.M.namedType("crypto/tls", "ConnectionState")
+		st := zero(t).(Struct)
+		st[structFieldIndex(t, "Version")] = sym.Const(16, 0x0304)
+		st[structFieldIndex(t, "HandshakeComplete")] = sym.Bool(true)
+		st[structFieldIndex(t, "CipherSuite")] = sym.Const(16, 0x1301)
+		st[structFieldIndex(t, "DidResume")] = e.Internal(0, "tlsresumed")
+		if e.Branch(e.Internal(0, "tlspeercert")) {
+			ct := e.M.namedType("crypto/x509", "Certificate")
+			cp := new(Value)
+			*cp = zero(ct)
+			store := e.newStore(types.NewPointer(ct), i64(1))
+			*store.cell(0) = cp
+			st[structFieldIndex(t, "PeerCertificates")] = Slice{St: store, Len: i64(1), Cap: i64(1)}
+		}
+		return st
+	}
+	models["crypto/tls.VersionName"] = func(e *Exec, c *frame, fn *ssa.Function, a []Value) Value {
+		return litString("TLS 1.3")
+	}
+	models["crypto/tls.CipherSuiteName"] = func(e *Exec, c *frame, fn *ssa.Function, a []Value) Value {
+		return litString("TLS_AES_128_GCM_SHA256")
+	}
 	// Close closes the raw connection as well as the TLS layer
 	models["(*crypto/tls.Conn).Close"] = func(e *Exec, c *frame, fn *ssa.Function, a []Value) Value {
 		recv := a[0].(*Value)
